@@ -45,6 +45,19 @@ func (c *Ctx) inputNodeTypes() []*types.Named {
 			continue
 		}
 		sig := sel.Type().(*types.Signature)
+		// ... and is a node of the plan: it can be given a next node (a scan strategy object with a Run method
+		// of its own is not one)
+		if ms.Lookup(sp.Pkg, "SetNext") == nil && ms.Lookup(sp.Pkg, "CallNext") == nil && ms.Lookup(sp.Pkg, "Callback") == nil {
+			hasNextish := false
+			for i := 0; i < ms.Len(); i++ {
+				if strings.Contains(strings.ToLower(ms.At(i).Obj().Name()), "next") {
+					hasNextish = true
+				}
+			}
+			if !hasNextish {
+				continue
+			}
+		}
 		if sig.Params().Len() == 1 && c.libNamedIs(sig.Params().At(0).Type(), "store", "Tx") {
 			out = append(out, named)
 		}
@@ -270,7 +283,8 @@ func rulePLAN1(c *Ctx) []Ob {
 					continue
 				}
 				good := true
-				for _, og := range origins(stored) {
+				// (a constructor's parameter is followed to what its call sites pass)
+				for _, og := range c.paramSources(stored, 0) {
 					call, ok := og.(*ssa.Call)
 					if !ok {
 						good = false
@@ -351,6 +365,40 @@ func isEmptyFreshMap(v ssa.Value) bool {
 	if !ok {
 		// a tiny constructor: a static call all of whose results are fresh empty maps
 		if call, isCall := v.(*ssa.Call); isCall {
+			// an identity method on a fresh empty map (fieldRanges{}.result()): every result is one of the
+			// callee's own parameters, and the matching argument is a fresh empty map
+			if g := call.Common().StaticCallee(); g != nil && len(g.Blocks) > 0 && len(g.Blocks) <= 3 && g.Signature.Results().Len() == 1 {
+				ident := true
+				okArg := false
+				for _, ret := range returnsOf(g) {
+					rv, ok := returnedValue(ret, 0)
+					if !ok {
+						ident = false
+						continue
+					}
+					for _, og := range origins(rv) {
+						p, isP := og.(*ssa.Parameter)
+						if !isP {
+							ident = false
+							continue
+						}
+						for i, q := range g.Params {
+							if q == p && i < len(call.Common().Args) {
+								for _, ao := range origins(call.Common().Args[i]) {
+									if isEmptyFreshMap(ao) {
+										okArg = true
+									} else {
+										ident = false
+									}
+								}
+							}
+						}
+					}
+				}
+				if ident && okArg {
+					return true
+				}
+			}
 			if g := call.Common().StaticCallee(); g != nil && len(g.Blocks) > 0 && len(g.Blocks) <= 3 && g.Signature.Results().Len() == 1 {
 				n := 0
 				for _, ret := range returnsOf(g) {
@@ -411,16 +459,31 @@ func rulePLAN2(c *Ctx) []Ob {
 			cases := c.opCases(fn, "BinaryCriteria", "OpType")
 			// a helper that merges two sets of ranges and is itself called only for conjunctions
 			viaCallers := false
-			if !guardedBy(fn, call.Block(), cases[andK]) && fn.Parent() == nil {
-				if sites := c.staticCallers(fn); len(sites) > 0 {
-					viaCallers = true
-					for _, cs := range sites {
-						caller := cs.Parent()
-						if caller == nil || !guardedBy(caller, cs.Block(), c.opCases(caller, "BinaryCriteria", "OpType")[andK]) {
-							viaCallers = false
-						}
+			var onlyForAnd func(g *ssa.Function, depth int) bool
+			onlyForAnd = func(g *ssa.Function, depth int) bool {
+				if g == nil || g.Parent() != nil || depth > 3 {
+					return false
+				}
+				sites := c.staticCallers(g)
+				if len(sites) == 0 {
+					return false
+				}
+				for _, cs := range sites {
+					caller := cs.Parent()
+					if caller == nil {
+						return false
+					}
+					if guardedBy(caller, cs.Block(), c.opCases(caller, "BinaryCriteria", "OpType")[andK]) {
+						continue
+					}
+					if !onlyForAnd(caller, depth+1) {
+						return false
 					}
 				}
+				return true
+			}
+			if !guardedBy(fn, call.Block(), cases[andK]) {
+				viaCallers = onlyForAnd(fn, 0)
 			}
 			if viaCallers {
 				o.add(OK, key, pos, "the helper is called only on the path where the visited node is a conjunction")
@@ -1741,13 +1804,52 @@ func ruleSORT3(c *Ctx) []Ob {
 		}
 		okf := false
 		var visit func(fn *ssa.Function)
+		// a helper of the node that passes the document it is given to the next node (emit(doc))
+		forwardsParam := func(g *ssa.Function, idx int) bool {
+			if g == nil || idx >= len(g.Params) {
+				return false
+			}
+			p := g.Params[idx]
+			fw := false
+			allCalls(g, func(ic ssa.CallInstruction) {
+				if !c.isCallbackForwarder(ic) {
+					return
+				}
+				ia := ic.Common().Args
+				for _, og := range origins(ia[len(ia)-1]) {
+					if og == ssa.Value(p) {
+						fw = true
+					}
+				}
+			})
+			return fw
+		}
 		visit = func(fn *ssa.Function) {
 			allCalls(fn, func(call ssa.CallInstruction) {
-				if !c.isCallbackForwarder(call) || !c.inLoop(call.Block()) {
+				if !c.inLoop(call.Block()) {
 					return
 				}
 				args := call.Common().Args
-				for _, og := range origins(args[len(args)-1]) {
+				if len(args) == 0 {
+					return
+				}
+				docArg := args[len(args)-1]
+				if !c.isCallbackForwarder(call) {
+					g := staticCallee(call)
+					if g == nil || !c.IsLib(c.declared(g)) {
+						return
+					}
+					found := false
+					for ai, a := range args {
+						if c.isDocPtr(a.Type()) && forwardsParam(c.declared(g), ai) {
+							docArg, found = a, true
+						}
+					}
+					if !found {
+						return
+					}
+				}
+				for _, og := range origins(docArg) {
 					l, ok := og.(*ssa.UnOp)
 					if !ok || l.Op != token.MUL {
 						continue
